@@ -203,6 +203,9 @@ func (x *Exec) block(st *State, fr *frame, b *ssa.BasicBlock, pred *ssa.BasicBlo
 		x.loopInvariants(st, fr, li, "entry", true)
 		x.havocLoop(st, fr, li)
 		x.loopInvariants(st, fr, li, "assume", false)
+		// state designator Si: the state at the start of the current iteration (the loop head of this path)
+		st.iterStart = nil
+		st.iterStart = st.Clone()
 		na := map[*ssa.BasicBlock]bool{}
 		for k, v := range active {
 			na[k] = v
